@@ -15,8 +15,10 @@ package main
 
 import (
 	"context"
+	"encoding/json"
 	"encoding/hex"
 	"fmt"
+	"math/big"
 	"net"
 	"os"
 	"path/filepath"
@@ -79,6 +81,8 @@ type mxNode struct {
 	txCount   int
 	subs      []mxSubmission
 	valset    uint64 // nonce carried by the last accepted edit-multisig payload
+	truth     map[string]mxTruth // by transaction hash
+	custody   map[string]*big.Int // coin id -> coins held by the multisig account (deposits in, accepted multisends out)
 }
 
 func (f *mxNode) height() uint64 {
@@ -117,6 +121,20 @@ func (f *mxNode) Address(p *api_service.AddressParams, _ ...api_service.ClientOp
 
 func (f *mxNode) newBlock(txs ...*models.TransactionResponse) {
 	f.blocks = append(f.blocks, &models.BlockResponse{Height: f.height() + 1, Transactions: txs})
+}
+
+// mxTruth: what really happened on Minter in one transaction (the ground truth a claim must report).
+type mxTruth struct {
+	height  uint64
+	kind    string // "deposit" | "batch" | "valset"
+	from    string
+	coin    string
+	value   string
+	cmdType string
+	recip   string
+	fee     string
+	nonce   uint64   // batch: hub batch nonce is not on Minter; valset: payload
+	members []string // valset: 0x-address:weight
 }
 
 // SendTransaction: Minter's rule for a multisig transaction — the nonce is the account's next one, every signature
@@ -244,6 +262,24 @@ func (f *mxNode) SendTransaction(p *api_service.SendTransactionParams, _ ...api_
 	sub.accepted = true
 	f.subs = append(f.subs, sub)
 	f.newBlock(resp)
+	if f.truth == nil {
+		f.truth = map[string]mxTruth{}
+	}
+	tr := mxTruth{height: f.height(), kind: sub.kind, from: f.multisig}
+	switch d := tx.Data().(type) {
+	case *transaction.MultisendData:
+		tr.coin = strconv.FormatUint(uint64(d.List[0].Coin), 10)
+		for _, it := range d.List {
+			f.addCustody(strconv.FormatUint(uint64(it.Coin), 10), new(big.Int).Neg(it.Value))
+		}
+	case *transaction.EditMultisigData:
+		tr.nonce = f.valset
+		for i := range d.Addresses {
+			a := d.Addresses[i]
+			tr.members = append(tr.members, fmt.Sprintf("0x%s:%d", strings.ToLower(a.String()[2:]), d.Weights[i]))
+		}
+	}
+	f.truth[hash] = tr
 	return &api_service.SendTransactionOK{Payload: &models.SendTransactionResponse{Code: 0, Hash: hash}}, nil
 }
 
@@ -638,7 +674,24 @@ func (e *Env) mxDeposit(from string, coin uint64, value string, payload string) 
 	mx := e.mx
 	mx.node.txCount++
 	any := models.ProtobufAny{"@type": "type.googleapis.com/api_pb.SendData", "coin": map[string]interface{}{"id": strconv.FormatUint(coin, 10), "symbol": "C"}, "to": mx.node.multisig, "value": value}
-	mx.node.newBlock(&models.TransactionResponse{Hash: fmt.Sprintf("Mt%060x", mx.node.txCount), From: from, Type: uint64(transaction.TypeSend), Data: &any, Payload: strfmt.Base64(payload)})
+	hash := fmt.Sprintf("Mt%060x", mx.node.txCount)
+	mx.node.newBlock(&models.TransactionResponse{Hash: hash, From: from, Type: uint64(transaction.TypeSend), Data: &any, Payload: strfmt.Base64(payload)})
+	if mx.node.truth == nil {
+		mx.node.truth = map[string]mxTruth{}
+	}
+	tr := mxTruth{height: mx.node.height(), kind: "deposit", from: from, coin: strconv.FormatUint(coin, 10), value: value}
+	if v, ok := new(big.Int).SetString(value, 10); ok {
+		mx.node.addCustody(tr.coin, v) // the coins are in the multisig account whatever the payload says
+	}
+	var cmd struct {
+		Type      string `json:"type"`
+		Recipient string `json:"recipient"`
+		Fee       string `json:"fee"`
+	}
+	if json.Unmarshal([]byte(payload), &cmd) == nil {
+		tr.cmdType, tr.recip, tr.fee = cmd.Type, cmd.Recipient, cmd.Fee
+	}
+	mx.node.truth[hash] = tr
 }
 
 func (e *Env) mxExec(cmd string) {
@@ -735,6 +788,52 @@ func (m *Monitor) checkC08Mx(g *Gen, w []string, out string) {
 	if mx.failed != "" {
 		m.report(g, "minter-loop-failed", mx.failed)
 		return
+	}
+	if strings.HasPrefix(w[1], "mx:run:events:") {
+		// every claim a connector hands in reports a transaction that really happened on Minter, as it happened
+		for _, line := range mx.pending {
+			f := strings.Fields(line)
+			if len(f) < 5 || f[0] != "vote" {
+				continue
+			}
+			bad := func(why string) {
+				m.report(g, "claim-differs-from-the-minter-transaction", fmt.Sprintf("%s: %s", why, line))
+			}
+			switch f[3] {
+			case "sth": // sth nonce coin amount sender receiver height tx
+				tr, ok := mx.node.truth[f[10]]
+				if !ok || tr.kind != "deposit" {
+					bad("no such deposit on Minter")
+					continue
+				}
+				recv, _ := sdk.AccAddressFromBech32(tr.recip)
+				if f[5] != tr.coin || f[6] != tr.value || strings.ToLower(f[7]) != "0x"+strings.ToLower(tr.from[2:]) || f[8] != fmt.Sprintf("%x", []byte(recv)) || f[9] != fmt.Sprint(tr.height) || tr.cmdType != "send_to_hub" {
+					bad(fmt.Sprintf("Minter: %+v", tr))
+				}
+			case "ttc": // ttc nonce coin amount fee sender chain receiver height tx
+				tr, ok := mx.node.truth[f[12]]
+				if !ok || tr.kind != "deposit" {
+					bad("no such deposit on Minter")
+					continue
+				}
+				chain := map[string]string{"send_to_ethereum": "ethereum", "send_to_bsc": "bsc"}[tr.cmdType]
+				fee, _ := new(big.Int).SetString(tr.fee, 0)
+				if f[5] != tr.coin || f[6] != tr.value || fee == nil || f[7] != fee.String() || strings.ToLower(f[8]) != "0x"+strings.ToLower(tr.from[2:]) || f[9] != chain ||
+					!strings.EqualFold(f[10], tr.recip) || f[11] != fmt.Sprint(tr.height) {
+					bad(fmt.Sprintf("Minter: %+v", tr))
+				}
+			case "bex": // bex coin nonce batchNonce height tx feePaid payer
+				tr, ok := mx.node.truth[f[8]]
+				if !ok || tr.kind != "batch" || f[4] != tr.coin || f[7] != fmt.Sprint(tr.height) {
+					bad(fmt.Sprintf("Minter: %+v", tr))
+				}
+			case "sse": // sse nonce setNonce height tx members
+				tr, ok := mx.node.truth[f[7]]
+				if !ok || tr.kind != "valset" || f[5] != fmt.Sprint(tr.nonce) || f[6] != fmt.Sprint(tr.height) || strings.ToLower(f[8]) != strings.ToLower(strings.Join(tr.members, ",")) {
+					bad(fmt.Sprintf("Minter: %+v", tr))
+				}
+			}
+		}
 	}
 	if strings.HasPrefix(w[1], "mx:run:batches:") || strings.HasPrefix(w[1], "mx:run:valsets:") {
 		for _, s := range mx.lastSubs {
@@ -877,6 +976,87 @@ func (m *Monitor) checkC08Mx(g *Gen, w []string, out string) {
 		}
 		if gh.preNext != 0 && mx.node.nonce < gh.preNext {
 			m.report(g, "confirmed-transaction-never-reached-the-multisig", fmt.Sprintf("%s had sequence %d = the multisig's next nonce, recorded confirmations of members with weight >= %d and every Minter event applied on the hub; after another full turn of every connector it is still not executed (multisig nonce %d)", gh.preKey, gh.preNext, mx.node.threshold, mx.node.nonce))
+		}
+	}
+}
+
+func (f *mxNode) addCustody(coin string, d *big.Int) {
+	if f.custody == nil {
+		f.custody = map[string]*big.Int{}
+	}
+	if f.custody[coin] == nil {
+		f.custody[coin] = new(big.Int)
+	}
+	f.custody[coin].Add(f.custody[coin], d)
+}
+
+// ---------------------------------------------------------------- monitor (C01, Minter side of the closed loop)
+
+// checkC01Mx: for every denomination, hub supply plus everything in flight (pool and batch entries of every chain,
+// amount + fee + commission, in hub units) never exceeds what backs it: the coins the accounts were funded with at
+// set-up, the coins held by the Minter multisig, and what the multisig has already paid out for batches the hub still
+// stores (the hub hears of an execution only through the connectors' claims).
+func (m *Monitor) checkC01Mx(g *Gen, w []string, out string, b, a *snapshot) {
+	if m.mxFunded == nil {
+		m.mxFunded = map[string]*big.Int{}
+	}
+	if w[0] == "fund" && out == "ok" && len(w) >= 4 {
+		add(m.mxFunded, w[2], bi(w[3]))
+	}
+	mx := g.env.mx
+	if mx == nil || mx.failed != "" {
+		return
+	}
+	m.mxObserve(g)
+	gh := m.mxGhost()
+	for _, s := range mx.lastSubs {
+		if s.accepted && s.kind == "batch" {
+			if bt := gh.batches[s.nonce]; bt != nil {
+				gh.execd[batchKey(bt.ExternalTokenId, bt.BatchNonce)] = true
+			}
+		}
+	}
+	for _, d := range g.denoms {
+		value := new(big.Int)
+		if v := a.supply[d]; v != nil {
+			value.Add(value, v)
+		}
+		paidUnobserved := new(big.Int)
+		for _, c := range g.chains {
+			entry := func(s steView) {
+				t := m.tok(c, s.extToken)
+				if t == nil || t.denom != d {
+					return
+				}
+				value.Add(value, conv(t.dec, 18, new(big.Int).Add(new(big.Int).Add(s.amount, s.fee), s.comm)))
+			}
+			for _, s := range a.pool[c] {
+				entry(s)
+			}
+			for _, bt := range a.batches[c] {
+				for _, s := range bt.txs {
+					entry(s)
+					if c == "minter" && gh.execd[batchKey(bt.extToken, bt.nonce)] {
+						if t := m.tok(c, s.extToken); t != nil && t.denom == d {
+							paidUnobserved.Add(paidUnobserved, s.amount)
+						}
+					}
+				}
+			}
+		}
+		funds := new(big.Int)
+		if v := m.mxFunded[d]; v != nil {
+			funds.Add(funds, v)
+		}
+		if t := m.tokByDenom("minter", d); t != nil {
+			if v := mx.node.custody[t.ext]; v != nil {
+				funds.Add(funds, v)
+			}
+		}
+		funds.Add(funds, paidUnobserved)
+		if value.Cmp(funds) > 0 {
+			m.report(g, "vouchers-exceed-custody(minter-loop)", fmt.Sprintf("denom %s after %v: supply + in flight = %s exceeds funded %s + held by the multisig + paid out but not yet observed (%s) = %s",
+				d, w, value, m.mxFunded[d], paidUnobserved, funds))
 		}
 	}
 }
